@@ -289,6 +289,13 @@ class Builder:
     def _branch(self, b, test, fr, t_true, t_false):
         g = self.g
         v = fold(self.prog, test, fr.fn, fr.consts)
+        if v is UNKNOWN and isinstance(test, (ast.Attribute, ast.Name)) or (
+                v is UNKNOWN and isinstance(test, ast.UnaryOp) and isinstance(test.op, ast.Not) and isinstance(test.operand, (ast.Attribute, ast.Name))):
+            # attribute / local with a single constant kind (e.g. a constructor default that no call site overrides)
+            inner = test.operand if isinstance(test, ast.UnaryOp) else test
+            k = self.kinds.kind(inner, fr)
+            if k[0] == 'const' and isinstance(k[1], (bool, int, type(None))):
+                v = (not k[1]) if isinstance(test, ast.UnaryOp) else k[1]
         b.info['folded'] = None if v is UNKNOWN else bool(v)
         if v is UNKNOWN or v:
             g.edge(b, t_true, 'n', (test, fr, True))
